@@ -557,6 +557,13 @@ def builtin_call(engine, st, name, node):
         cls = node.args[1]
         names = [ast.unparse(e) for e in cls.elts] if isinstance(cls, ast.Tuple) else [ast.unparse(cls)]
         return Ty.mk_bool(engine.isinstance_(st, v, names))
+    if name == "range":
+        # a range object used as a value: the list of its elements
+        from .loops import describe_iter
+
+        it, _ = describe_iter(engine, st, node)
+        p = z3.Int("rl!p")
+        return engine.alloc(st, V(Ty.List(Int), [it.length, z3.Lambda([p], it.elem(p).term)]))
     if name in ("tuple", "list"):
         if not node.args:
             if name == "tuple":
@@ -938,6 +945,9 @@ def eval_call(engine, st, node):
         bv = engine.deref(st, base)
         meth = f.attr
         if isinstance(bv, Obj):
+            if f"{bv.cls}.{meth}" in engine.contract.externals:
+                # the contract under proof states its own (assumed) view of this callee
+                return engine.external(st, f"{bv.cls}.{meth}", [base] + _args(engine, st, node), node, _kwargs(engine, st, node))
             callee = engine.registry.get(f"{bv.cls}.{meth}") or engine.registry.get_method(bv.cls, meth)
             if callee is not None:
                 args = _args(engine, st, node)
